@@ -24,8 +24,8 @@ PReset == vals' = <<>> /\ kind' = <<>> /\ bld' = <<>>
 NewVersion(kd, c) == vals' = Append(vals, c) /\ kind' = Append(kind, kd) /\ UNCHANGED bld
 
 \* the content an operation produces from its sources
-Result(op, a, b, k, k2, v, fn, ps) ==
-  CASE op = "new"      -> FromPairs(Empty, ps)
+Result(op, kd, a, b, k, k2, v, fn, ps) ==
+  CASE op = "new"      -> FromPairs(Empty, IF kd = "set" THEN [i \in DOMAIN ps |-> <<ps[i][1], 1>>] ELSE ps)
     [] op = "updated"  -> Updated(vals[a], k, v)
     [] op = "removed"  -> Removed(vals[a], k)
     [] op = "removed2" -> Removed(Removed(vals[a], k), k2)
@@ -45,7 +45,7 @@ Apply(op, kd, a, b, k, k2, v, fn, ps) ==
   /\ Len(vals) < MaxVer
   /\ op # "new" => (a \in DOMAIN vals /\ kind[a] = kd /\ op \in (IF kd = "map" THEN MapOps ELSE SetOps))
   /\ op \in {"concat", "union", "diff", "intersect"} => (b \in DOMAIN vals /\ kind[b] = kd)
-  /\ NewVersion(kd, Result(op, a, b, k, k2, v, fn, ps))
+  /\ NewVersion(kd, Result(op, kd, a, b, k, k2, v, fn, ps))
 
 NewBuilder(kd) == bld' = Append(bld, [kind |-> kd, live |-> TRUE, c |-> Empty]) /\ UNCHANGED <<vals, kind>>
 BAdd(i, k, v)  == /\ i \in DOMAIN bld /\ bld[i].live
@@ -58,7 +58,7 @@ Build(i)       == /\ i \in DOMAIN bld /\ bld[i].live /\ Len(vals) < MaxVer
 \* ---- free-running version of the store, for model checking the specification itself ----
 Pairs == UNION {[1..n -> KeyU \X (1..MaxVal)] : n \in 0..2}
 PNext ==
-  \/ \E kd \in {"map", "set"}, ps \in Pairs : Apply("new", kd, 0, 0, 1, 1, 1, "-", IF kd = "set" THEN [i \in DOMAIN ps |-> <<ps[i][1], 1>>] ELSE ps)
+  \/ \E kd \in {"map", "set"}, ps \in Pairs : Apply("new", kd, 0, 0, 1, 1, 1, "-", ps)
   \/ \E a, b \in DOMAIN vals, k, k2 \in KeyU, v \in 1..MaxVal, fn \in {"inc", "del", "set"}, op \in MapOps \cup SetOps :
         Apply(op, kind[a], a, b, k, k2, v, fn, <<>>)
   \/ (Len(bld) < 1 /\ \E kd \in {"map", "set"} : NewBuilder(kd))
